@@ -191,9 +191,39 @@ func (s *Spec) EmitWire(r *rand.Rand, extraArg bool) map[string]string {
 		}
 		return h
 	}
-	files["wire.go"] = hdr(inj.String(), true) + inj.String()
+	injBody, setsBody := inj.String(), sets.String()
+	if s.WireLocalHelper {
+		// a small provider living next to the injectors in the wire file
+		// itself (wire copies such declarations into wire_gen.go)
+		for _, p := range s.Provs {
+			if p.Kind != PFunc || p.Pkg != "" || len(p.Params) != 0 || p.Variadic {
+				continue
+			}
+			re := regexp.MustCompile(`\b` + regexp.QuoteMeta(p.Fn) + `\b`)
+			if !re.MatchString(injBody) && !re.MatchString(setsBody) {
+				continue
+			}
+			var rs []string
+			for _, t := range p.Results {
+				rs = append(rs, s.Expr(t, ""))
+			}
+			if p.Err {
+				rs = append(rs, "error")
+			}
+			res := strings.Join(rs, ", ")
+			if len(rs) > 1 {
+				res = "(" + res + ")"
+			}
+			local := "provide" + p.Fn + "Locally"
+			injBody = re.ReplaceAllString(injBody, local)
+			setsBody = re.ReplaceAllString(setsBody, local)
+			injBody += fmt.Sprintf("// %s lives in the wire file, next to the injectors.\nfunc %s() %s { return %s() }\n\n", local, local, res, p.Fn)
+			break
+		}
+	}
+	files["wire.go"] = hdr(injBody, true) + injBody
 	if sets.Len() > 0 {
-		body := sets.String()
+		body := setsBody
 		h := hdr(body, false)
 		// the second wire file may import the same sibling packages under other aliases
 		for _, e := range s.ExtPkgs {
